@@ -274,6 +274,14 @@ theorem secondPass_sim (strategy : Strategy) :
       have := hbl x (List.mem_cons_of_mem _ hxm)
       exact ⟨this.1, fun q hq => this.2 q (hsub _ hq)⟩
     rw [secondPass, secondPass]
+    rw [sim.view r₁.st r₂.st dir dst h.1]
+    cases hcont : contained (R₂.view r₂.st) dir dst with
+    | error e => cases e <;> exact ⟨h, rfl⟩
+    | ok bcont =>
+    cases bcont with
+    | false => exact ⟨h, rfl⟩
+    | true =>
+    simp only
     have hcs := call_sim sim r₁ r₂ h dir src dst false hx.1
     cases h1 : r₁.call R₁ dir src dst false with
     | mk r1' e1 =>
